@@ -40,6 +40,7 @@ struct Scen
   int drvSteps = 0;
   long drvTimeout = -1;
   std::atomic<int> runReturned{0};
+  int sigStopAt = 0; // Stop() from a 'signal handler' in front of the driver thread's k-th scheduling point
 };
 
 void DoAction(Scen &sc, User &u, std::string const &a)
@@ -117,7 +118,7 @@ void DoAction(Scen &sc, User &u, std::string const &a)
 
 int main()
 {
-  return har::run_cases([](std::string const &, std::vector<std::string> const &ops) {
+  return har::run_cases([](std::string const &caseId, std::vector<std::string> const &ops) {
     Scen sc;
     uint64_t seed = 1;
     std::vector<int> prefix;
@@ -133,6 +134,8 @@ int main()
         if(w[1] == "steps") { sc.drvSteps = std::stoi(w[2]); sc.drvTimeout = std::stol(w[3]); }
         if(w[1] == "runs") { sc.drvSteps = std::stoi(w[2]); }
         if(w[1] == "stepsrun") { sc.drvSteps = std::stoi(w[2]); sc.drvTimeout = std::stol(w[3]); }
+      } else if(w[0] == "sigstop") {
+        sc.sigStopAt = std::stoi(w[1]);
       } else if(w[0] == "usr") {
         auto u = std::make_unique<User>();
         u->name = w[1];
@@ -174,6 +177,14 @@ int main()
             }
           }
         });
+        if(sc.sigStopAt > 0) {
+          sched::inject_at(0, sc.sigStopAt, [scp]() {
+            // what the bundled examples do on Ctrl-C: Stop() from a signal handler, here on the driver thread
+            sched::mark("begin drv stop-signal");
+            scp->driver->Stop();
+            sched::mark("end drv stop-signal");
+          });
+        }
         for(auto &up : sc.users) {
           auto *u = up.get();
           sched::spawn(u->name, [scp, u]() {
@@ -190,7 +201,7 @@ int main()
           har::obs("outcome done");
         } else {
           har::obs(std::string("outcome ") + (outcome == sched::Outcome::Deadlock ? "deadlock " : "stuck ") + sched::describe_blocked());
-          har::out("end abandoned");
+          har::out("end " + caseId);
           std::fflush(stdout);
           _exit(0); // parked threads cannot be joined
         }
